@@ -95,6 +95,9 @@ use crate::{
 };
 
 mod bundle_factory;
+#[cfg(all(test, feature = "verif"))]
+#[path = "/verif/harness/composer/executor.rs"]
+mod verif;
 
 pub(crate) mod builder;
 
